@@ -611,7 +611,8 @@ def generate(rng, index, tier):
         rng.choice(KINDS) for _ in range(n_entries - 1)]
     recipes = [gen_entry(rng, 'e%d' % i, k) for i, k in enumerate(kinds)]
     n_ops = rng.randint(3, 30 if tier == 'thorough' else 14)
-    seeds = rng.sample([0, 1, 3, 11, 42, 12345, 999983], 3)
+    # (0 is always a candidate: the one seed that is falsy)
+    seeds = [0] + rng.sample([1, 3, 11, 42, 12345, 999983], 2)
     ops = []
     n_gen = 0
     perturb_on = rng.random() < 0.8
